@@ -569,7 +569,7 @@ C07_JOBS = [
     c07_job("fss::fss_first_occurrence", "hcobs::find_stuff_sequence on EVERY byte string of length <= 40: index of the first FE FD, or None"),
 ]
 X_TRUST = ["MIR -> path-enumerating interpreter lib/mirx.py (concrete control flow and lengths, symbolic bytes, z3 feasibility pruning) and the reference codec lib/codecx.py written from the format description in the property text",
-           "OwningIovec is abstracted as an append/backfill event log (its own behaviour is the subject of C03/C04/C05); hcobs::find_stuff_sequence is replaced by its contract (first FE FD or None), which Kani job fss::fss_first_occurrence decides for all strings <= 40 bytes",
+           "OwningIovec is abstracted as an append/backfill event log (its own behaviour is the subject of C03/C04/C05); hcobs::find_stuff_sequence is replaced by its contract (first FE FD or None) inside the codec jobs; the contract is decided for the real function by Kani job fss::fss_first_occurrence (all strings <= 40 bytes) and by Engine X job find_stuff_sequence_contract (its own MIR: all strings <= 10/13 bytes, windowed strings up to 300 bytes)",
            "every mismatch query is asked to z3 4.8.12 and cvc5 1.0 and both must agree; a coverage query (the enumerated path conditions are exhaustive) accompanies every mismatch query"]
 X_ASSUME = ["slices handed to the codec are modelled as value lists: aliasing between input pieces is not modelled (the codec never writes through its inputs)",
             "unwinding edges are not followed: a panic on any feasible path is itself reported as a violation"]
@@ -577,8 +577,8 @@ X_OUTSIDE = ["inputs longer than the stated lengths other than the windowed boun
              "the concrete OwningIovec behind the event log (slice merging, arena copies, consumers) - see C03/C04/C05; Encoder::read_n / encode_read / decode_read wrappers (C17 decides ByteArena::read_n)"]
 
 p07 = Prop("C07", "HCOBS wire format: Encoder == canonical encoding, Decoder accepts exactly the format",
-           quick=[codecx.EncoderVsReference("quick"), codecx.DecoderVsReference("quick"), codecx.ApiProduction("quick")] + C07_JOBS,
-           thorough=[codecx.EncoderVsReference("thorough"), codecx.DecoderVsReference("thorough"), codecx.ApiProduction("thorough")] + C07_JOBS,
+           quick=[codecx.EncoderVsReference("quick"), codecx.DecoderVsReference("quick"), codecx.ApiProduction("quick"), codecx.FindStuffSequence("quick")] + C07_JOBS,
+           thorough=[codecx.EncoderVsReference("thorough"), codecx.DecoderVsReference("thorough"), codecx.ApiProduction("thorough"), codecx.FindStuffSequence("thorough")] + C07_JOBS,
            bounds_quick="Engine X: EncoderState == reference for every byte string of length <= 7, every 2-piece cut (3 pieces for L 4-5), copy/borrow inputs, limits (1,1),(1,2),(2,3),(3,5); DecoderState == reference for every byte string <= 6 at (2,3),(1,2) and production limits; public Encoder/Decoder at production limits for every string <= 4 and windowed inputs crossing the 252 and 252+64008 boundaries. Engine K: production constants, header arithmetic for all 64009 chunk sizes, find_stuff_sequence for all strings <= 40 bytes",
            bounds_thorough="Engine X lengths <= 9 (encoder, + limits (2,2),(4,7), all four method pairs up to 8, 3 pieces for L 4-7) and <= 7 (decoder, + (1,1),(3,5), all method pairs); more boundary windows and cuts; Engine K as quick",
            outside=X_OUTSIDE, assumptions=X_ASSUME + ["hook H4 (hcobs::verif_hooks::encode_header) exposes the private header kernel to Kani; hook H2 shrinks arena chunks to 8 bytes there; the limit hook H1 is OFF in every build used by this check (Engine X passes tiny limits as the Parameters argument of the internal state machines and reads PROD_PARAMS from the MIR for the public API)"],
@@ -588,8 +588,8 @@ reg(p07)
 
 C02_K = [C07_JOBS[3], C07_JOBS[1], C07_JOBS[0]]
 p02 = Prop("C02", "encoder output stuff-free, split-independent, bounded",
-           quick=[codecx.EncoderVsReference("quick"), codecx.ApiProduction("quick", pid="C02", name="c02::public_api_production_limits[mirx]"), smtengine.C02LengthLemma()] + C02_K,
-           thorough=[codecx.EncoderVsReference("thorough"), codecx.ApiProduction("thorough", pid="C02", name="c02::public_api_production_limits[mirx]"), smtengine.C02LengthLemma()] + C02_K,
+           quick=[codecx.EncoderVsReference("quick"), codecx.ApiProduction("quick", pid="C02", name="c02::public_api_production_limits[mirx]"), smtengine.C02LengthLemma(), codecx.FindStuffSequence("quick", pid="C02")] + C02_K,
+           thorough=[codecx.EncoderVsReference("thorough"), codecx.ApiProduction("thorough", pid="C02", name="c02::public_api_production_limits[mirx]"), smtengine.C02LengthLemma(), codecx.FindStuffSequence("thorough", pid="C02")] + C02_K,
            bounds_quick="every encoder output path of Engine X (lengths <= 7, all cuts, copy/borrow, four tiny limit pairs; public API at production limits incl. boundary windows): no adjacent FE FD in the output, output identical to the single reference encoding whatever the cut and input method (split independence), length <= len + 1 + 2*ceil(len/64008) at production limits; SMT lemma: the canonical encoding's length bound for ALL lengths < 2^40; Kani: find_stuff_sequence, header digits < 0xFD, production constants",
            bounds_thorough="lengths <= 9, all method pairs, six tiny limit pairs, more windows",
            outside=X_OUTSIDE + ["the size bound for long inputs rests on: implementation == canonical encoding (decided up to the stated lengths and at the boundary windows) + the arithmetic lemma on the canonical encoding (all lengths)"],
